@@ -21,6 +21,9 @@ type GenCfg struct {
 	UseForkerOnly bool
 	// MaxOwn bounds the number of events per validator (0 = no bound).
 	MaxOwn int
+	// TwinForks additionally offers fork events that agree with an existing event in creator, seq and parents
+	// (they count against ForkBudget)
+	TwinForks bool
 }
 
 type genState struct {
@@ -146,16 +149,24 @@ func successors(s genState, cfg GenCfg, emit func(genState)) {
 						return
 					}
 					ev.Lamport = lam + 1
-					// an event identical in content to an existing one is the same event, not a fork
+					// an event identical in structure to an existing one is the same event, unless the family allows
+					// twin forks (same creator, seq and parents, different payload) and the fork budget permits one
+					twins := 0
 					for _, old := range d.Events {
 						if old.Creator == ev.Creator && old.Seq == ev.Seq && sameParents(old.Parents, ev.Parents, ev.Seq > 1) {
+							twins++
+						}
+					}
+					if twins > 0 {
+						if !cfg.TwinForks || s.forks >= cfg.ForkBudget || (cfg.UseForkerOnly && cfg.ForkerOnly != v) {
 							return
 						}
+						ev.Salt = twins
 					}
 					nd := d.Clone()
 					nd.Events = append(nd.Events, ev)
 					f := s.forks
-					if so.fork {
+					if so.fork || twins > 0 {
 						f++
 					}
 					emit(genState{nd, f})
